@@ -237,7 +237,7 @@ def _subclass(cls, t):
         if n == "Any":
             return True
         table = {"int": int, "float": float, "str": str, "bool": bool, "bytes": bytes, "U": e["U"], "S": e["S"],
-                 "NoneType": type(None)}
+                 "NoneType": type(None), "NoneLit": type(None)}
         return issubclass(cls, table[n])
     if t[0] in ("Union", "Or"):
         return _any([_subclass(cls, t[1]), _subclass(cls, t[2])])
@@ -445,8 +445,8 @@ def values_for(t):
 # ------------------------------------------------------------------------------------------------
 def type_arg_terms():
     """arguments allowed under Type[...]: class atoms, Any, unions of two class atoms"""
-    out = [["atom", a] for a in CLASS_ATOMS + ["Any"]]
-    out += [["Union", ["atom", a], ["atom", b]] for a, b in (("int", "str"), ("U", "S"), ("bool", "bytes"))]
+    out = [["atom", a] for a in CLASS_ATOMS + ["Any", "NoneType", "NoneLit"]]  # (type[None]: builtin generics keep the literal None)
+    out += [["Union", ["atom", a], ["atom", b]] for a, b in (("int", "str"), ("U", "S"), ("bool", "bytes"), ("int", "NoneLit"))]
     # parameterised generics (issubclass itself refuses them)
     out += [["List", ["atom", "int"]], ["list", ["atom", "str"]], ["Dict", ["atom", "str"], ["atom", "int"]], ["TupleVar", ["atom", "int"]],
             ["set", ["atom", "int"]], ["tuple2", ["atom", "int"], ["atom", "str"]]]
